@@ -14,7 +14,7 @@ import TonVerif.Proofs.Snake
 
 namespace TonVerif.Properties.C06
 open TonVerif TonVerif.Model TonVerif.Spec.Tlb TonVerif.Proofs.Builder TonVerif.Proofs.Slice
-  TonVerif.Proofs.Typed TonVerif.Proofs.Snake
+  TonVerif.Proofs.Typed TonVerif.Proofs.Snake TonVerif.Proofs.Bits
 variable {R : Type}
 
 /-- bit-exactness: a typed store that returns normally has appended exactly the TL-B encoding of the
@@ -126,6 +126,47 @@ theorem c06_preload_overread_differs :
   constructor
   · rw [loadUint_eq]; simp
   · simp [SOp.preloadUint, SOp.bind, SOp.peekBits, SOp.ofOption, SOp.ba2intU, natOfBits]
+
+/-- the spec is self-consistent: the number denoted by `uint n` / `int n` encodings is the value -/
+theorem c06_spec_consistent (n : Nat) :
+    (∀ v : Nat, v < 2 ^ n → bitsVal (uintBits n v) = v) ∧
+    (∀ v : Int, 0 < n → FitsInt n v → bitsValS (intBits n v) = v) := by
+  constructor
+  · intro v h
+    rw [← natToBits_eq_uintBits, ← natOfBits_eq_bitsVal]; exact natOfBits_natToBits n v h
+  · intro v hn h
+    have h1 := ba2intS_intBits n v hn h
+    have hne : (intBits n v).isEmpty = false := by
+      cases hh : intBits n v with
+      | nil => have : (intBits n v).length = n := by unfold intBits; exact uintBits_length _ _
+               rw [hh] at this; simp at this; omega
+      | cons _ _ => rfl
+    rw [ba2intS_eq_bitsValS _ hne] at h1
+    exact Option.some.inj h1
+
+/-- an address that passes the library's range checks, has a 32-byte hash part and (for anycast) a depth
+of at most 30 is encoded as a VALID TL-B `MsgAddress` -/
+theorem c06_addr_valid (a : Addr) (hr : InRange (R := R) (.addr a)) (hw : WF (R := R) (.addr a))
+    (hd : match a with | .std (some (d, _)) _ _ => d ≤ 30 | _ => True) : (addrOf a).Valid := by
+  cases a with
+  | none => trivial
+  | ext len val =>
+    simp only [InRange] at hr
+    simp [addrOf, MsgAddress.Valid, hr.1]
+  | std any wc h =>
+    simp only [InRange] at hr
+    simp only [WF] at hw
+    cases any with
+    | none => simp [addrOf, MsgAddress.Valid, hr.2, hw.2]
+    | some dp =>
+      obtain ⟨d, p⟩ := dp
+      simp only at hr hd
+      simp [addrOf, MsgAddress.Valid, hr.2, hw.2, hr.1.1, hd]
+
+/-- non-vacuity of `c06_addr_valid`: an anycast address with depth 30 -/
+example : InRange (R := Nat) (.addr (.std (some (30, 5)) (-1) (List.replicate 32 7))) ∧
+    WF (R := Nat) (.addr (.std (some (30, 5)) (-1) (List.replicate 32 7))) := by
+  simp [InRange, WF, FitsUint, FitsInt, Bytes.WF]
 
 /-! ### snake data
 
